@@ -147,6 +147,7 @@ func notifierConf(spec string) (out string) {
 		if err != nil {
 			return "conf tmpfail"
 		}
+		scratchDirs = append(scratchDirs, dir)
 		notifierConfTmpl = filepath.Join(dir, "open.tmpl")
 		_ = os.WriteFile(notifierConfTmpl, []byte("{{.Cluster}} {{.Group}}"), 0o644)
 	}
